@@ -2,6 +2,8 @@
    Only statements here; each is closed by `exact` of a lemma of proofs/C14.v. *)
 From Coq Require Import ZArith String List Bool.
 From Grpchan Require Import lib.Dec gen.Codes model.StatusHttp proofs.C14.
+From Grpchan Require model.UnaryMeta proofs.UnaryMeta.
+Import Coq.Lists.List.ListNotations.
 Open Scope Z_scope.
 
 (* every row of the documented table is what the server's switch returns *)
@@ -48,3 +50,16 @@ Proof. exact ok_error_is_internal. Qed.
 Theorem C14_fallback : forall s, client_code s None = 0 <-> 200 <= s < 300.
 Proof. exact fallback_client. Qed.
 Print Assumptions C14_fallback.
+
+(* the status of a failed unary call is SET on the reply after the handler's own response metadata was laid out:
+   whatever that metadata says -- an x-grpc-status relayed from a backend call included -- the caller recovers
+   the handler's code (model/UnaryMeta.v); had the status been added instead, a relayed "0:OK" would win *)
+Theorem C14_unary_status_header_wins : forall hmd tmd c msg hs, 0 < c < 2 ^ 32 ->
+  Grpchan.model.UnaryMeta.client_unary_code hs (Grpchan.model.UnaryMeta.server_unary_reply hmd tmd (Some (c, msg))) = c.
+Proof. exact Grpchan.proofs.UnaryMeta.unary_code_recovered. Qed.
+Print Assumptions C14_unary_status_header_wins.
+
+Theorem C14_unary_status_added_refuted :
+  Grpchan.model.UnaryMeta.client_unary_code 503
+    (Grpchan.proofs.UnaryMeta.server_unary_reply_added [("x-grpc-status"%string, ["0:OK"%string])] nil 14 "backend down"%string) = 0.
+Proof. exact Grpchan.proofs.UnaryMeta.added_status_refuted. Qed.
